@@ -5,13 +5,23 @@ pub assume_specification [<http::Uri as Clone>::clone] (u: &http::Uri) -> (r: ht
     ensures r == *u;
 #[verifier::external_body]
 pub broadcast proof fn axiom_fmt_uri() ensures #[trigger] vstd::std_specs::fmt::fmt_req_all::<http::Uri>() {}
-// `for x in &set` is `set.iter()` (std: impl IntoIterator for &HashSet calls iter()); vstd specifies `iter` only.
-pub assume_specification<'a, T, S, A: std::alloc::Allocator> [<&'a std::collections::HashSet<T, S, A> as IntoIterator>::into_iter] (s: &'a std::collections::HashSet<T, S, A>) -> (r: std::collections::hash_set::Iter<'a, T>)
-    ensures
-        obeys_key_model::<T>() && builds_valid_hashers::<S>() ==> {
-            &&& IteratorSpec::remaining(&r).unref().to_set() == s@
-            &&& IteratorSpec::remaining(&r).no_duplicates()
-            &&& IteratorSpec::remaining(&r).len() == s@.len()
-            &&& IteratorSpec::obeys_prophetic_iter_laws(&r)
-            &&& IteratorSpec::decrease(&r) is Some
-        };
+
+// ---- http::Uri ----
+pub assume_specification [http::Uri::path] (u: &http::Uri) -> (r: &str)
+    ensures r@ == uri_path(*u);
+pub assume_specification [http::Uri::query] (u: &http::Uri) -> (r: Option<&str>)
+    ensures match r { Some(q) => uri_query(*u) == Some(q@), None => uri_query(*u) is None };
+
+// ---- core::str ----
+pub assume_specification [str::to_lowercase] (s: &str) -> (r: String)
+    ensures r@ == lower(s@);
+pub uninterp spec fn pat_view<P>(p: P) -> Seq<char>;
+pub assume_specification<P: core::str::pattern::Pattern> [str::starts_with::<P>] (s: &str, p: P) -> (r: bool)
+    ensures r == is_prefix(pat_view(p), s@);
+#[verifier::external_body]
+pub broadcast proof fn axiom_pat_view_string(p: &String)
+    ensures #[trigger] pat_view::<&String>(p) == p@ {}
+// lower is idempotent (Unicode lower-casing of an already lower-cased string changes nothing)
+#[verifier::external_body]
+pub broadcast proof fn axiom_lower_idempotent(s: Seq<char>)
+    ensures #[trigger] lower(lower(s)) == lower(s) {}
